@@ -80,15 +80,27 @@ def encode(asc, style):
     out.append("</staffGrp></scoreDef>")
     out.append('<section xml:id="sec1">')
     xmlid = {}
+    key_changed = [False]
     ties = []
     for m in range(nmeas):
         chg = next((t for t in p0["timesigs"] if t["t"] == p0["measures"][m]["s"] and m > 0), None)
         if chg is not None:
-            # a meter change at a barline: a scoreDef between the measures, meter as attributes or as a child
+            # a meter change at a barline: a scoreDef between the measures, meter as attributes or as a child;
+            # the same scoreDef may change the key (of all staves) as well
+            keyattr, keychild = "", ""
+            if style.get("keychg") and not key_changed[0]:
+                key_changed[0] = True
+                nf = style["keychg"]
+                nsig = "0" if nf == 0 else ("%ds" % nf if nf > 0 else "%df" % -nf)
+                keyattr = ' key.sig="%s"' % nsig
+                keychild = '<keySig xml:id="%s" sig="%s"/>' % (nid("ks"), nsig)
+                qk = gen.quarter_pos(p0, chg["t"])
+                for e_ in expected:
+                    e_["keys"] = [(F(0), e_["key"]), (qk, nf)]
             if style["attr_defs"]:
-                out.append('<scoreDef xml:id="%s" meter.count="%d" meter.unit="%d"/>' % (nid("sd"), chg["beats"], chg["beat_type"]))
+                out.append('<scoreDef xml:id="%s" meter.count="%d" meter.unit="%d"%s/>' % (nid("sd"), chg["beats"], chg["beat_type"], keyattr))
             else:
-                out.append('<scoreDef xml:id="%s"><meterSig xml:id="%s" count="%d" unit="%d"/></scoreDef>' % (nid("sd"), nid("ms"), chg["beats"], chg["beat_type"]))
+                out.append('<scoreDef xml:id="%s"><meterSig xml:id="%s" count="%d" unit="%d"/>%s</scoreDef>' % (nid("sd"), nid("ms"), chg["beats"], chg["beat_type"], keychild))
         out.append('<measure xml:id="%s" n="%d">' % (nid("m"), m + 1))
         mties = []
         for k, (pi, p, st) in enumerate(staves):
